@@ -29,6 +29,9 @@ func TestReplay(t *testing.T) {
 	}
 	_ = json.Unmarshal(raw, &probe)
 	for i := 0; i < n; i++ {
+		if os.Getenv("C10_DEBUG") != "" {
+			os.Stderr.WriteString("DBG CASE " + strconv.Itoa(i) + "\n")
+		}
 		if probe.Dim != "" {
 			var c Thresh
 			if err := json.Unmarshal(raw, &c); err != nil {
